@@ -219,6 +219,61 @@ theorem halfReduced_readout (f : TransFns Rat) (tk la : Rat) (htk : tk ≠ 0) :
   simp only [halfReduced, psiOfLa, F_KJ_V_EQ, R_KJ_DEG_MOL, LOG_10, NumOps.lit, NumOps.ln, NumOps.ofRat, id_eq]
   grind
 
+/-! ## 2b. species written from a non-master parent: the rewriting rule of `trxn_add` -/
+
+/-- the rule the model uses for the CD-MUSIC distribution of a substituted reaction is the one in the source
+(`structures.cpp`, `trxn_add`: `trxn.dz[i] += coef * r.dz[i]`; the translator extracts the power of `coef`) -/
+theorem source_trxn_add (f : TransFns Rat) (acc dz : Rat × Rat × Rat) (coef : Rat) :
+    letI := ratOps f
+    Gen.SurfConst.TRXN_DZ_COEF_POWER = 1 ∧
+    trxnAddDz acc coef dz =
+      (acc.1 + (Gen.SurfConst.TRXN_DZ_COEF_POWER * coef + (1 - Gen.SurfConst.TRXN_DZ_COEF_POWER)) * dz.1,
+       acc.2.1 + (Gen.SurfConst.TRXN_DZ_COEF_POWER * coef + (1 - Gen.SurfConst.TRXN_DZ_COEF_POWER)) * dz.2.1,
+       acc.2.2 + (Gen.SurfConst.TRXN_DZ_COEF_POWER * coef + (1 - Gen.SurfConst.TRXN_DZ_COEF_POWER)) * dz.2.2) := by
+  have e : Gen.SurfConst.TRXN_DZ_COEF_POWER = 1 := by decide +kernel
+  refine ⟨e, ?_⟩
+  simp only [trxnAddDz, e]
+  ext <;> grind
+
+/-- **rewrite_dz**: the effective distribution of a rewritten species is its own distribution plus
+`Σ coefficient × distribution of the parent` in each plane -/
+theorem rewrite_dz (f : TransFns Rat) (own : Rat × Rat × Rat) (ps : List (Rat × (Rat × Rat × Rat))) :
+    letI := ratOps f
+    rewriteDz own ps =
+      (own.1 + (ps.map fun p => p.1 * p.2.1).sum, own.2.1 + (ps.map fun p => p.1 * p.2.2.1).sum,
+       own.2.2 + (ps.map fun p => p.1 * p.2.2.2).sum) := by
+  induction ps generalizing own with
+  | nil =>
+    simp only [rewriteDz, List.foldl_nil, List.map_nil, List.sum_nil]
+    ext <;> grind
+  | cons p rest ih =>
+    have h := ih (@trxnAddDz Rat (ratOps f) own p.1 p.2)
+    simp only [rewriteDz, List.foldl_cons] at h ⊢
+    rw [h]
+    simp only [trxnAddDz, List.map_cons, List.sum_cons]
+    ext <;> grind
+
+/-- the electrostatic term is linear in the distribution: term(own + c·parent) = term(own) + c·term(parent) -/
+theorem electro_cd_linear (f : TransFns Rat) (tk c p0 p1 p2 : Rat) (own par : Rat × Rat × Rat) :
+    letI := ratOps f
+    electroTermCD tk (trxnAddDz own c par).1 (trxnAddDz own c par).2.1 (trxnAddDz own c par).2.2 p0 p1 p2
+      = electroTermCD tk own.1 own.2.1 own.2.2 p0 p1 p2 + c * electroTermCD tk par.1 par.2.1 par.2.2 p0 p1 p2 := by
+  simp only [electroTermCD, trxnAddDz, F_KJ_V_EQ, R_KJ_DEG_MOL, LOG_10, NumOps.lit, NumOps.ln, NumOps.ofRat, id_eq]
+  grind
+
+/-- **chain_mass_action**: a species that obeys its mass-action law AS WRITTEN (from a parent, with its own
+`-cd_music` numbers) while the parent obeys its own law, obeys the law written from the master with the summed log K and
+the rewritten distribution — and conversely this is the only distribution for which both readings agree -/
+theorem chain_mass_action (f : TransFns Rat) (tk c p0 p1 p2 lk lkp sRest sPar laSp laPar : Rat) (own par : Rat × Rat × Rat)
+    (hpar : letI := ratOps f; laPar = lkp + sPar + electroTermCD tk par.1 par.2.1 par.2.2 p0 p1 p2)
+    (hsp : letI := ratOps f; laSp = lk + c * laPar + sRest + electroTermCD tk own.1 own.2.1 own.2.2 p0 p1 p2) :
+    letI := ratOps f
+    laSp = (lk + c * lkp) + (c * sPar + sRest) +
+      electroTermCD tk (trxnAddDz own c par).1 (trxnAddDz own c par).2.1 (trxnAddDz own c par).2.2 p0 p1 p2 := by
+  have h := electro_cd_linear f tk c p0 p1 p2 own par
+  rw [h, hsp, hpar]
+  grind
+
 /-! ## 3. Gouy–Chapman: σ is odd and strictly increasing in ψ -/
 
 /-- **gc_odd_monotone** (odd): `σ(−ψ) = −σ(ψ)` for any `sinh` that is odd -/
@@ -576,5 +631,13 @@ example : letI := ratOps toyFns;
 example : ∃ f : TransFns Rat, (∀ a b, f.exp (a + b) = f.exp a * f.exp b) ∧ f.exp 0 = 1 :=
   ⟨{ toyFns with exp := fun _ => 1 }, by intro a b; show (1 : Rat) = 1 * 1; decide +kernel, rfl⟩
 example : letI := ratOps toyFns; kCalc [(729 / 100 : Rat), 10, 0, 0, 0, 0, 0, 0] (29815 / 100) = 729 / 100 := by decide +kernel
+
+-- bidentate phosphate written from the protonated site: own (−1.38, −1.62, 0), parent (1, 0, 0) twice
+example : @rewriteDz Rat (ratOps toyFns) ((-138 / 100 : Rat), (-162 / 100 : Rat), (0 : Rat)) [(2, (1, 0, 0))]
+    = (62 / 100, -162 / 100, 0) := by decide +kernel
+-- a chain of depth two: the protonated bidentate written from the bidentate
+example : @rewriteDz Rat (ratOps toyFns) ((0 : Rat), (1 : Rat), (0 : Rat))
+    [(1, @rewriteDz Rat (ratOps toyFns) ((-138 / 100 : Rat), (-162 / 100 : Rat), (0 : Rat)) [(2, (1, 0, 0))])]
+      = (62 / 100, -62 / 100, 0) := by decide +kernel
 
 end PhreeqcVerif.Surface
